@@ -129,6 +129,12 @@ def atom_vocabulary():
     A.append(("cmp", "fields", ("x", ("map", "abs")), ">=", 1.5))
     A.append(("cmp", "fields", (("map", "ident"), "x"), ">=", 1.5))
     A.append(("noop", "fields"))
+    # noop() on a query that already names a key (present on some points only) or a map function: still every point
+    A.append(("noop", "tags", ("k",)))
+    A.append(("noop", "tags", ("nokey",)))
+    A.append(("noop", "fields", ("x",)))
+    A.append(("noop", "fields", ("nokey",)))
+    A.append(("noop", "tags", (("map", "ident"), "k")))
     return A
 
 
@@ -142,7 +148,7 @@ def quick_atoms(A):
             seen.add(key)
             keep.append(a)
     # one more each for the None/missing sensitive ones
-    return keep[:52] + [a for a in A if a[0] == "cmp" and a[1] == "fields" and isinstance(a[4], int) and abs(a[4]) > 2**52][:4] + [a for a in A if a[0] == "cmp" and a[1] == "time" and isinstance(a[4], tuple) and a[4][0] == "T" and a[4][1] in (T_FAR, T_OLD + 1)][:6]
+    return keep[:52] + [a for a in A if a[0] == "cmp" and a[1] == "fields" and isinstance(a[4], int) and abs(a[4]) > 2**52][:4] + [a for a in A if a[0] == "cmp" and a[1] == "time" and isinstance(a[4], tuple) and a[4][0] == "T" and a[4][1] in (T_FAR, T_OLD + 1)][:6] + [a for a in A if a[0] == "noop" and len(a) > 2][:3]
 
 
 CORE_ATOMS = [
